@@ -1,9 +1,11 @@
 package gate
 
 import (
+	"bytes"
 	"encoding/json"
 	"errors"
 	"fmt"
+	"io"
 
 	"go.minekube.com/gate/pkg/gate/config"
 	"gopkg.in/yaml.v3"
@@ -19,11 +21,11 @@ func mergeConfigPatch(current *config.Config, patch string) (*config.Config, err
 		return nil, fmt.Errorf("encode current config: %w", err)
 	}
 	var target any
-	if err := json.Unmarshal(currentJSON, &target); err != nil {
+	if err := decodeJSONExact(currentJSON, &target); err != nil {
 		return nil, fmt.Errorf("decode current config: %w", err)
 	}
 	var patchValue any
-	if err := json.Unmarshal([]byte(patch), &patchValue); err != nil {
+	if err := decodeJSONExact([]byte(patch), &patchValue); err != nil {
 		return nil, fmt.Errorf("invalid JSON Merge Patch: %w", err)
 	}
 
@@ -36,6 +38,21 @@ func mergeConfigPatch(current *config.Config, patch string) (*config.Config, err
 		return nil, fmt.Errorf("invalid patched config: %w", err)
 	}
 	return &candidate, nil
+}
+
+// decodeJSONExact decodes exactly one JSON value and keeps numbers as json.Number,
+// so integers beyond 2^53 are not rounded through float64 on their way into the
+// patched configuration.
+func decodeJSONExact(data []byte, value *any) error {
+	decoder := json.NewDecoder(bytes.NewReader(data))
+	decoder.UseNumber()
+	if err := decoder.Decode(value); err != nil {
+		return err
+	}
+	if _, err := decoder.Token(); !errors.Is(err, io.EOF) {
+		return errors.New("unexpected data after JSON value")
+	}
+	return nil
 }
 
 func canonicalConfigJSON(current *config.Config) ([]byte, error) {
